@@ -27,6 +27,8 @@ static struct {
   struct slot slots[64];
   int nslots, cur, nmark;
   struct slot *active;
+  long afail;       /* >= 0: the index of the allocation of main() that fails */
+  int count_allocs; /* report the number of allocations main() made */
 } S;
 
 static int sw_of(const char *t) { return !strcmp(t, "ok") ? 0 : !strcmp(t, "fail") ? 1 : 2; }
@@ -299,7 +301,13 @@ static void run_case(void) {
     M.setgid_hook = h_setgid;
     M.setuid_hook = h_setuid;
     M.poll_hook = h_poll;
+    long alloc_base = W.nallocs;
+    W.alloc_fail_at = S.afail >= 0 ? W.nallocs + S.afail : -1;
     int rc = klunok_main(S.argc, S.argv);
+    W.alloc_fail_at = -1;
+    if (S.count_allocs) {
+      printf("allocs %ld\n", W.nallocs - alloc_base);
+    }
     W.stderr_buf[W.stderr_len] = 0;
     char *nl = strchr(W.stderr_buf, '\n');
     if (nl) {
@@ -332,6 +340,7 @@ int drv_main(void) {
       S.argc = 1;
       S.fan = S.minfo = S.mount_ok = S.load = S.stat_ok = 1;
       S.markfail = -1;
+      S.afail = -1;
       M.uid = M.gid = 0;
       M.ngroups = 1;
       M.pid = 4242;
@@ -367,6 +376,12 @@ int drv_main(void) {
       S.sgroups = sw_of(t[4]);
       S.sgid = sw_of(t[5]);
       S.suid = sw_of(t[6]);
+    } else if (!strcmp(t[0], "m_afail")) {
+      /* the k-th allocation made by main() fails (implementation only) */
+      S.afail = atol(t[1]);
+    } else if (!strcmp(t[0], "m_allocs")) {
+      /* report how many allocations main() made (to enumerate m_afail) */
+      S.count_allocs = 1;
     } else if (!strcmp(t[0], "m_self")) {
       M.pid = atoi(t[1]);
     } else if (!strcmp(t[0], "m_slot")) {
